@@ -10,6 +10,7 @@ Helper lemmas: `Lemmas/RoutingRedirect.lean`.
 -/
 import WzVerif.Lemmas.RoutingRedirect
 import WzVerif.Lemmas.RoutingConverge
+import WzVerif.Lemmas.RoutingDefaults
 namespace Wz.Props.C12
 open Wz Wz.Routing
 
@@ -228,6 +229,58 @@ example : (match mkMap {} specs0 with
       decide (mergeSlashes "/b//c".toList = "/b/c".toList)
     | none => false) = true := by decide +kernel
 
+/-- **defaults_redirect_converges_partial.** When `get_default_redirect` issues a redirect for the rule
+`r` just matched with values `vals`, the target is the URL `Rule.build` gives for a rule `r0` of the
+map with the SAME endpoint, not build_only, whose defaults agree (Python `==`) with `vals`
+wherever `vals` carries them, built from `vals` updated with those defaults. And whenever that canonical
+rule is one whose own URLs match back (`hback`: the conclusion of C04.match_build_partial for `r0`
+— a rule of the grammar without subdomain rule on a map where no other rule admits the path), the
+re-match of the target returns `r0` with `r0`'s defaults and, for every variable of `r0` without a
+default, exactly the value of the original match: the redirect does not change endpoint or arguments. -/
+theorem defaults_redirect_converges_partial {m : RMap} {a : Adapter} {r : Rule} {meth : Str}
+    {vals : List (Str × Value)} {qa : QueryArgs} {url : Str}
+    (h : getDefaultRedirect m a r meth vals qa (rulesByEndpoint m.rules r.endpoint) = .ok (some url)) :
+    ∃ r0 ∈ m.rules, r0.endpoint = r.endpoint ∧ r0.spec.buildOnly = false ∧
+      (∀ kd ∈ r0.defaults, ∀ v, lookupVal kd.1 vals = some v → kd.2.pyEq v = true) ∧
+      ∃ dom u upath, url = makeRedirectUrl m.cfg.hostMatching a u qa (some dom) ∧
+        buildSide r0 (dictUpdate vals r0.defaults) (traceToks r0.pathToks) = .ok upath ∧
+        (u = upath ∨ ∃ params, u = upath ++ '?' :: params) ∧
+        ∀ (mg rd : Bool) (q : Req),
+          (matchSM m.root mg rd q [] (unquote upath) =
+            .ok r0 (dictUpdate (builtPairs r0 (dictUpdate vals r0.defaults) r0.pathToks) r0.defaults)) →
+          ∃ vals', matchSM m.root mg rd q [] (unquote upath) = .ok r0 vals' ∧
+            ∀ n ∈ varNames r0.pathToks, lookupVal n r0.defaults = none → lookupVal n vals' = lookupVal n vals := by
+  obtain ⟨r0, hr0, hprov, hsuit, dom, u, hb, hu⟩ := getDefaultRedirect_inv h
+  obtain ⟨hbo, _, hep, _⟩ := providesDefaultsFor_facts hprov
+  simp only [rulesByEndpoint, mem_sortRules, List.mem_filter, beq_iff_eq] at hr0
+  obtain ⟨upath, hup, hform⟩ := rule_build_path hb
+  refine ⟨r0, hr0.1, hep, hbo, suitableFor_defaults hsuit, dom, u, upath, hu, hup, hform, ?_⟩
+  intro mg rd q hback
+  exact ⟨_, hback, fun n hn hd => rematch_value_nodefault r0 vals n hn hd⟩
+
+def specsDefaults : List RuleSpec :=
+  [ { toks := [.slash, .lit "all".toList, .slash], endpoint := "all".toList, defaults := [("page".toList, .int 1)] },
+    { toks := [.slash, .lit "all".toList, .slash, .lit "page".toList, .slash, .var (.int 0 false none none) "page".toList],
+      endpoint := "all".toList } ]
+
+-- non-vacuity (the documented example): `/all/page/1` is redirected to `/all/`, whose re-match returns the
+-- defaults rule with page = 1 — `hback` holds, and `/all/` is not redirected again
+example : (match mkMap {} specsDefaults with
+    | some m =>
+      (match m.rules, matchAdapter m { adapter0 with scriptName := "/".toList, queryArgs := .none } "/all/page/1".toList none .none none with
+       | [r0, _r1], .redirect url =>
+         url == "https://example.org/all/".toList &&
+         (match buildSide r0 (dictUpdate [("page".toList, Value.int 1)] r0.defaults) (traceToks r0.pathToks) with
+          | .ok upath =>
+            (match matchSM m.root true true ⟨"GET".toList, false⟩ [] (unquote upath) with
+             | .ok r vals' => r.idx == 0 &&
+                 vals' == dictUpdate (builtPairs r0 (dictUpdate [("page".toList, Value.int 1)] r0.defaults) r0.pathToks) r0.defaults
+             | _ => false) &&
+            (matchAdapter m { adapter0 with scriptName := "/".toList, queryArgs := .none } (unquote upath) none .none none).isMatched
+          | _ => false)
+       | _, _ => false)
+    | none => false) = true := by decide +kernel
+
 -- OPEN (P1): slash_redirect_converges at full strength — "match (p ++ '/') is not again a slash redirect and
 -- returns the rule/values the original would have" — is FALSE as it stands (F12b above). Proved: the target
 -- is directly admitted by the strict rule that asked for the slash and its search is not `None`, and by
@@ -235,8 +288,13 @@ example : (match mkMap {} specs0 with
 -- form excluding a second `SlashRequired` needs the hypothesis that no rule part other than a final empty
 -- one admits the empty segment (no `//` left in a rule after merging, no converter accepting ""); that
 -- predicate is not carried yet.
--- OPEN (P1): defaults_redirect_converges — needs C04.match_build for the canonical rule (the
--- URL built from the matched values matches back to the same endpoint/values) on non-overlapping maps;
--- validated by stream `redirects` (oracle: final endpoint/arguments equal the original's).
+-- OPEN (P1): defaults_redirect_converges at full strength. Proved above: the target is the canonical rule's
+-- own URL for the same endpoint and (Python-)equal arguments, and — given that the canonical rule's URLs
+-- match back, which C04.match_build_partial proves for rules of the grammar on non-overlapping maps —
+-- the re-match denotes the same endpoint and arguments. Missing: that the re-match is not followed by a
+-- second defaults redirect (the first rule of the endpoint that provides defaults was chosen, so no
+-- earlier one is suitable — an argument about `suitable_for` under Python `==` that is not formalised),
+-- and the alias redirect; both are covered by stream `redirects` (oracle: chain ends, no two
+-- consecutive canonical redirects on unambiguous maps, final endpoint/arguments equal the original's).
 
 end Wz.Props.C12
